@@ -152,6 +152,10 @@ PrivFailures(S, T, e, out) ==
   IN
     F("JoinNeedsEntitlement",
       \A c \in DOMAIN S.ch : \A x \in gained(c) : x = a /\ joinOK(c))
+    \cup F("InvitationIsOneShot",
+      (* joining a +i / +x channel uses up the invitation that admitted the session *)
+      \A c \in DOMAIN S.ch : \A x \in gained(c) :
+         (x = a /\ c \in s.inv /\ ("i" \in S.ch[c].modes \/ "x" \in S.ch[c].modes)) => c \notin T.ss[a].inv)
     \cup F("NewChannelOnlyByJoin",
       \A c \in DOMAIN T.ch \ DOMAIN S.ch : e.cmd = "JOIN" /\ MemOf(T, c) = {LcN(T.ss[a].nick)})
     \cup F("KickNeedsChanop",
@@ -195,6 +199,13 @@ PrivFailures(S, T, e, out) ==
       /\ DOMAIN T.holds \subseteq DOMAIN S.holds)
 
 ---------------------------------------------------------------------------
+(* what a snapshot round trip must not change: who holds which privilege *)
+PrivProj(st) ==
+  [ch |-> [c \in DOMAIN st.ch |-> [mem |-> st.ch[c].mem, modes |-> st.ch[c].modes, key |-> st.ch[c].key, bans |-> st.ch[c].bans]],
+   ss |-> [x \in DOMAIN st.ss |-> [op |-> st.ss[x].op, sv |-> st.ss[x].sv, inv |-> st.ss[x].inv, li |-> st.ss[x].li,
+                                    pass |-> st.ss[x].pass, lsc |-> st.ss[x].lsc]],
+   opers |-> st.cfg.opers, svc |-> st.cfg.svc, banned |-> st.cfg.banned, capcfg |-> st.cfg.capcfg]
+
 (* C17: lookups and ended sessions *)
 Lookup(st, id) == IF Sid(id, 0) \in DOMAIN st.ss THEN "ok" ELSE IF st.lp > id THEN "nosuch" ELSE "notyet"
 EndedGone(S, T) ==
@@ -226,7 +237,8 @@ PropFailures(S, e, T, out, rec) ==
   \cup F("C17", "LookupSound",
          \A k \in DOMAIN rec.lookup :
             LET id == rec.lookup[k][1]  ans == rec.lookup[k][2] IN
-            ans = "skip" \/ ( /\ (ans = "ok" <=> Sid(id, 0) \in DOMAIN T.ss)
+            ans = "skip" \/ ( /\ ans \in {"ok", "nosuch", "notyet"}
+                              /\ (ans = "ok" <=> Sid(id, 0) \in DOMAIN T.ss)
                               /\ (ans = "nosuch" => (Sid(id, 0) \notin DOMAIN T.ss /\ id < rec.e.id))
                               /\ (id > rec.e.id => ans = "notyet") ))
 =============================================================================
